@@ -254,7 +254,7 @@ func checkC10(c *Ctx, r *Report) {
 	for _, st := range []int64{0, 1, 2, 3} {
 		for _, dur := range []int64{0, 30} {
 			for _, proto := range []int64{1, 2} {
-				cells := map[string]aval{"state": kint(st), "type:sn": kstr("*packets1.Connect"), "f:packets1.Connect.Duration": kint(dur), "f:packets1.Connect.ProtocolID": kint(proto), "type:tx": kstr("*gateway.connectTransaction")}
+				cells := map[string]aval{"state": kint(st), "type:sn": kstr("*packets1.Connect"), "f:packets1.Connect.Duration": kint(dur), "f:packets1.Connect.ProtocolID": kint(proto), "type:tx": kstr(c.gwConnectTx())}
 				outs, _ := m.run(m.snDisp, cells)
 				key := fmt.Sprintf("%s/CONNECT(duration=%d,protocol=%d)", stateNames[st], dur, proto)
 				okc := len(outs) > 0
